@@ -1,18 +1,18 @@
 CONSTANTS
-  Logs = {"X"}
+  Logs = {"X", "Y"}
   Defect = "none"
-  Certs = {"x1", "x3", "p1"}
+  Certs = {"x1", "x2", "p1"}
   ChainOf <- MCChainOf
   NoCache = FALSE
-  Cap = 2
-  MaxTree = 2
+  Cap = 1
+  MaxTree = 1
   MaxFaults = 1
   Depth = 0
   Dialect = "memory"
 INIT Init
-NEXT NextLean
+NEXT Next
 VIEW StateView
-CONSTRAINT PendingBound
+CONSTRAINT PendingBound1
 INVARIANTS CacheSound CacheBounded FaultClasses AckedServable CacheStandsForStored
 PROPERTIES SameAsDirect FaultIsError RangeWhole LegacyUnchanged AckAfterStore CacheFromStore StoreMonotone ServableStays RestartIsCold
   AckedIsStored GarbledLeafIsError RangeOrderIrrelevant LogsIndependent
